@@ -169,6 +169,72 @@ def build_data(shape: dict, parity: int = 0, number_format=None):
     return cd
 
 
+def _label(n, i, cat_kind, parity, tod=False):
+    lab = n["lab"]
+    if cat_kind == "date":
+        return date_of(lab, parity + i, tod)
+    if cat_kind == "num":
+        return num_of(lab, parity + i)
+    return str_of(lab)
+
+
+def staged_data(shape: dict, parity: int, render):
+    """The SAME data as build_data(shape, parity), but the chart-data object is built in two stages with a rendering in between
+    (`render(cd)` makes a throw-away chart from the half-built object): first the left spine of the category tree (first category, its
+    first sub-category, ...) and the first series (XY / bubble: its first point); then the remaining sub-categories under the nodes
+    that already exist, the remaining categories, points and series.  Nothing the first rendering computed may be remembered."""
+    from pptx.chart.data import BubbleChartData, CategoryChartData, XyChartData
+    kind = shape["kind"]
+    if kind == "cat":
+        ck, tod = shape["catKind"], bool(shape.get("tod"))
+        cd = CategoryChartData()
+        spine = []                       # (node, Category object) along the left spine
+        nodes, parent, top = shape["cats"], cd, True
+        while nodes:
+            c = parent.add_category(_label(nodes[0], 0, ck, parity, tod)) if top else parent.add_sub_category(_label(nodes[0], 0, ck, parity))
+            spine.append((nodes[0], c))
+            nodes, parent, top = nodes[0]["subs"], c, False
+        first = shape["series"][:1]
+        for i, s_ in enumerate(first):
+            cd.add_series(str_of(s_["name"]), [val_of(v, parity + i + j) for j, v in enumerate(s_["vals"])],
+                          **({"number_format": s_["nf"]} if s_.get("nf") else {}))
+        render(cd)
+
+        def rest(parent_obj, nodes_, start):
+            for i in range(start, len(nodes_)):
+                c = parent_obj.add_sub_category(_label(nodes_[i], i, ck, parity))
+                rest(c, nodes_[i]["subs"], 0)
+        for n, c in reversed(spine):     # deepest first: a node gets its later children after its first child is complete
+            rest(c, n["subs"], 1)
+        for i in range(1, len(shape["cats"])):
+            c = cd.add_category(_label(shape["cats"][i], i, ck, parity, tod))
+            rest(c, shape["cats"][i]["subs"], 0)
+        extend_data(cd, shape, len(first), parity)
+        return cd
+    cd = XyChartData() if kind == "xy" else BubbleChartData()
+    sers = shape["series"]
+    ser0 = None
+    if sers:
+        s0 = sers[0]
+        ser0 = cd.add_series(str_of(s0["name"]), **({"number_format": s0["nf"]} if s0.get("nf") else {}))
+        pts = list(enumerate(s0["vals"]))
+
+        def add_pt(j, y):
+            x = val_of(s0["xs"][j], parity + j)
+            if kind == "xy":
+                ser0.add_data_point(x, val_of(y, parity + j))
+            else:
+                ser0.add_data_point(x, val_of(y, parity + j), val_of(s0["sizes"][j], parity))
+        for j, y in pts[:1]:
+            add_pt(j, y)
+    render(cd)
+    if sers:
+        for j, y in pts[1:]:
+            add_pt(j, y)
+        _add_xy_series(cd, shape, 1, parity)
+    return cd
+
+
 def extend_data(cd, shape: dict, start: int, parity: int = 0):
     """Add the series of `shape` from index `start` on to an existing chart-data object (same values build_data would give)."""
     if shape["kind"] == "cat":
@@ -449,6 +515,13 @@ def sheet_chunk(jobs: list) -> list:
                 gf = slide.shapes.add_chart(types[tname][0], Emu(0), Emu(0), Emu(3000000), Emu(2000000), cd)
                 extend_data(cd, shape, 1, parity)
                 gf.chart.replace_data(cd)
+            elif site == "StagedData":
+                # ONE chart-data object rendered when half built (left spine of the category tree + first series / first point), then
+                # completed and used for the chart under test (staged_data)
+                def render(cd_, _t=types[tname][0], _sl=slide):
+                    _sl.shapes.add_chart(_t, Emu(0), Emu(0), Emu(1000000), Emu(1000000), cd_)
+                    _sl.shapes._spTree.remove(_sl.shapes[-1]._element)        # the scratch chart leaves the slide (one chart per slide is read back)
+                gf = slide.shapes.add_chart(types[tname][0], Emu(0), Emu(0), Emu(3000000), Emu(2000000), staged_data(shape, parity, render))
             else:
                 first = PRE[shape["kind"]] if site == "ReplaceData" else shape
                 gf = slide.shapes.add_chart(types[tname][0], Emu(0), Emu(0), Emu(3000000), Emu(2000000), build_data(first, parity))
@@ -783,7 +856,16 @@ def run_history(job) -> dict:
             elif a["op"] == "replace":
                 shape = job["shapes"][str(a["d"])]
                 cat_kind = shape["catKind"]
-                chart.replace_data(build_data(shape, a["d"]))
+                if a.get("how") == "staged":
+                    ctype = chart.chart_type
+
+                    def render(cd_, _prs=prs, _ct=ctype):
+                        sl = _prs.slides.add_slide(_prs.slide_layouts[6])
+                        sl.shapes.add_chart(_ct, Emu(0), Emu(0), Emu(1000000), Emu(1000000), cd_)
+                    data = staged_data(shape, a["d"], render)
+                else:
+                    data = build_data(shape, a["d"])
+                chart.replace_data(data)
             elif a["op"] == "format":
                 apply_format(chart, a["i"])
             elif a["op"] == "reopen":
